@@ -15,7 +15,8 @@ Open Scope Z_scope.
 (** what the setters of [Parsed] checked *)
 Definition setter_ok (f : fields) : Prop :=
   1 <= f_day f <= 31 /\ 1 <= f_month f <= 12 /\ i32_min <= year_of f <= i32_max /\ 0 <= f_hour f <= 23 /\
-  0 <= f_minute f <= 59 /\ 0 <= second_of f <= 60 /\ valid_zone (f_zone f) = true /\ 0 <= f_yval f.
+  0 <= f_minute f <= 59 /\ 0 <= second_of f <= 60 /\ valid_zone (f_zone f) = true /\ 0 <= f_yval f /\
+  i32_min <= zone_offset (f_zone f) <= i32_max.
 
 Lemma year_rule_inv yl yv y : 2 <= yl -> 0 <= yv < 10 ^ yl -> year_rule yl yv = Val y -> y = year_rule_spec yl yv.
 Proof.
@@ -127,5 +128,5 @@ Proof.
     rewrite Eoff. subst p1. destruct wd, sec; reflexivity.
   - unfold setter_ok. cbn [F f_day f_month f_hour f_minute f_zone f_yval].
     change (year_rule_spec (blen s5 - blen s6) year) with (year_of F) in Ry.
-    unfold second_of. cbn [F f_second]. repeat split; try lia; try exact Vz; destruct sec; lia.
+    unfold second_of. cbn [F f_second]. rewrite Eoff. repeat split; try lia; try exact Vz; destruct sec; lia.
 Qed.
